@@ -234,8 +234,16 @@ class TemplateData(object):
 
         else:
             if descriptor.X == 33 and self.waiting_for_qa_info_meaning:
-                node = self.add_node(QualityInfoNode(*self.get_next_descriptor_and_index()))
-                self.index_to_node[self.bitmap_links[node.index]].add_attribute(node)
+                # The quality information is the run of class 33 elements that follows
+                # 222000, each linked to the element it refers to. A class 33 element
+                # met after that run has ended is an ordinary element.
+                qa_info_descriptor, index = self.get_next_descriptor_and_index()
+                if index in self.bitmap_links:
+                    node = self.add_node(QualityInfoNode(qa_info_descriptor, index))
+                    self.wire_bitmap_attribute(node)
+                else:
+                    self.waiting_for_qa_info_meaning = False
+                    self.add_node(ValueDataNode(qa_info_descriptor, index))
 
             else:
                 node = self.add_value_node()
